@@ -459,6 +459,20 @@ def check_bound_producers(res, f):
                     res.inst("S-BOUND", f"{f.qualname}:{sub.lineno} powerset(..., max_size=max_order+1)", ok)
                     if not ok:
                         res.add(mk_finding(PROP, "S-BOUND", f, sub, f"{f.qualname}: faces that replace a too-large simplex are produced by `{unparse(c, 70)}` without max_size=max_order+1, so faces of order above max_order are added", role="producer"))
+                elif nm in ("_subfaces", "subfaces"):
+                    # every proper face of size >= 2 up to len-1, no cap: fine for a simplex one order too large, not beyond;
+                    # accepted only when the produced faces are filtered by their length against max_order
+                    n += 1
+                    filtered = False
+                    for comp in ast.walk(sub):
+                        if isinstance(comp, (ast.ListComp, ast.GeneratorExp, ast.SetComp)) and any(x is c for x in ast.walk(comp)):
+                            for g in comp.generators:
+                                for t in g.ifs:
+                                    if any(isinstance(x, ast.Call) and getattr(x.func, "id", None) == "len" for x in ast.walk(t)) and any(isinstance(x, ast.Name) and x.id == "max_order" for x in ast.walk(t)):
+                                        filtered = True
+                    res.inst("S-BOUND", f"{f.qualname}:{sub.lineno} {nm}(...) filtered by len <= max_order+1", filtered)
+                    if not filtered:
+                        res.add(mk_finding(PROP, "S-BOUND", f, sub, f"{f.qualname}: faces that replace a too-large simplex are produced by `{unparse(c, 70)}`, which yields every proper face up to one node less than the simplex; for a simplex more than one order above max_order, faces above max_order are added", role="producer"))
                 elif nm == "combinations":
                     n += 1
                     r = c.args[1] if len(c.args) > 1 else None
